@@ -66,7 +66,7 @@ def check_schedule(case, prop, nvals, after_step=None, unsafe_is_violation=False
     if not live:
         raise Skip("original-unsafe-or-too-long")
     stores = any(did_store(o, fv, ir0) for fv, o in live)
-    sctx = sched.SchedCtx(env)
+    sctx = sched.SchedCtx(env, case["prog"])
     p = p0
     accepted = []
     changed = False
